@@ -274,8 +274,27 @@ func TestVerif_C15(t *testing.T) {
 		case 1, 2:
 			nFrom = 2
 		}
+		// several authors of which only some are the user's, with a Sender field (any)
+		mixedAuthors := r.chance(12)
+		if mixedAuthors {
+			nFrom = 1
+			stats["mixed-authors"]++
+		}
 		lines = append(lines, "Subject: hello")
 		for i := 0; i < nFrom; i++ {
+			if mixedAuthors {
+				a := variant(own[r.intn(len(own))])
+				b := variant(foreign[r.intn(len(foreign))])
+				if r.chance(50) {
+					a, b = b, a
+				}
+				f := fmtAddr(a) + ", " + fmtAddr(b)
+				if r.chance(30) {
+					f = "Team: " + f + ";"
+				}
+				lines = append(lines, key("From")+": "+f)
+				continue
+			}
 			lines = append(lines, key("From")+": "+fromField())
 			if r.chance(30) {
 				lines = append(lines, "To: someone@example.net")
@@ -287,6 +306,9 @@ func TestVerif_C15(t *testing.T) {
 			nSender = 1
 		case 3:
 			nSender = 2
+		}
+		if mixedAuthors {
+			nSender = 1
 		}
 		for i := 0; i < nSender; i++ {
 			a, _ := pick()
